@@ -393,6 +393,21 @@ def run_case(case, seed):
             trans += 1
         except Exception:
             continue
+        # the operand the Linop is APPLIED to in its own (possibly real) dtype while the captured one is complex, and vice
+        # versa: the result is the convolution of the two arrays as they are, whatever their dtypes
+        if admitted and not viol:
+            xr_ = np.real(x).astype(np.float64)
+            capc = (cap.astype(np.complex128) * (1 + 0.5j)) if not np.iscomplexobj(cap) else cap
+            try:
+                Ac = getattr(sp.linop, lname)(arg_shape, capc, **kw)
+                yr_ = np.asarray(Ac(xr_))
+                d_, f_ = (xr_, capc) if lname == "ConvolveData" else (capc, xr_)
+                refr = ref_conv(d_.reshape([B, ci] + m).astype(complex), f_.reshape([co, ci] + n).astype(complex), m, n, mode, s, B, ci, co).reshape(oshape)
+                if list(yr_.shape) != oshape or not np.abs(yr_ - refr).max() <= 2e-5 * max(1, np.abs(refr).max()):
+                    V("definition", "linop." + lname, "real-dtype input with a complex captured operand: result (dtype %s) differs from the "
+                      "definition by %.3g (imaginary part of the captured array dropped?)" % (yr_.dtype, float(np.abs(yr_ - refr).max()) if list(yr_.shape) == oshape else float("inf")))
+            except Exception:
+                pass      # refusing the dtype combination is loud
         if not admitted:
             V("accepted-not-admitted", "linop." + lname, "operator built and applied for a shape combination the mode does not admit")
             continue
